@@ -392,7 +392,9 @@ func (g *c39gn) declIface() []c39form {
 // expander strips every ParenExpr, the printer does not put these back (finding parens-dropped)
 func (g *c39gn) declParens() []c39form {
 	A, f := g.id("P"), g.id("pf")
-	g.f.defect = "parens-dropped"
+	if c39dropsNeededParens() {
+		g.f.defect = "parens-dropped" // only while the code under test still has the defect
+	}
 	g.f.tags = append(g.f.tags, "needed-parens")
 	g.use(f + "(2)")
 	var body string
@@ -412,10 +414,92 @@ func (g *c39gn) declParens() []c39form {
 	}
 }
 
+// layout that matters once the expander has removed the parentheses and rebuilt the nodes: operands, arguments and
+// results that start on a later line than the keyword / operator / opening bracket before them.  If the printer
+// breaks a line where Go inserts a semicolon (`return` newline `expr`), the written file does not compile or, with a
+// named result, returns the wrong value: the compile-and-run oracle sees both.
+func (g *c39gn) declLayout() []c39form {
+	h, h2, f := g.id("lh"), g.id("lk"), g.id("lay")
+	g.f.tags = append(g.f.tags, "layout")
+	pool := []string{
+		"\tt1 := (\n\t\ta +\n\t\t\t3)\n\tres += t1\n",
+		"\tres += " + h2 + "(\n\t\ta,\n\t\tres,\n\t)\n",
+		"\tres = res +\n\t\ta*2 -\n\t\t1\n",
+		"\tl := []int{\n\t\ta,\n\t\t2,\n\t}\n\tres += len(l) + l[(\n\t\t0)]\n",
+		"\tif (a > 0 &&\n\t\tres < 100) {\n\t\tres++\n\t}\n",
+		"\tres += -(\n\t\ta)\n",
+		"\tdefer func(d int) {\n\t\tres += d\n\t}(\n\t\ta)\n",
+		"\tc := make(chan int, 1)\n\tc <- (\n\t\ta)\n\tres += <-(\n\t\tc)\n",
+		"\tp := &res\n\t*(\n\t\tp) += 2\n",
+		"\tm := map[string]int{\n\t\t\"k\": (\n\t\t\ta),\n\t}\n\tres += m[\"k\"]\n",
+		"\tfor i := (\n\t\t0); i < 2; i++ {\n\t\tres += i\n\t}\n",
+		"\tswitch (\n\t\ta % 2) {\n\tcase (\n\t\t0):\n\t\tres += 5\n\tdefault:\n\t\tres += 7\n\t}\n",
+		"\tvar u = (\n\t\ta) * (\n\t\t2)\n\tres += u\n",
+		"\tres += func() int {\n\t\treturn (\n\t\t\ta + 1)\n\t}()\n",
+		"\tif a > 100 {\n\t\treturn (\n\t\t\t" + h + "(a))\n\t}\n",
+	}
+	rets := []string{
+		"\treturn (\n\t\t" + h + "(a) + res)\n",
+		"\treturn (\n\t\t" + h + "(a))\n",
+		"\treturn (" + h + "(a) +\n\t\tres)\n",
+		"\treturn " + h + "(\n\t\ta)\n",
+		"\treturn (\n\t\t(" + h + "(a)) +\n\t\t\t(res))\n",
+	}
+	body := "\tres = -1\n"
+	used := map[int]bool{}
+	for i, n := 0, 2+g.k(4); i < n; i++ {
+		k := g.k(len(pool))
+		if used[k] {
+			continue
+		}
+		used[k] = true
+		body += pool[k]
+	}
+	body += rets[g.k(len(rets))]
+	forms := []c39form{
+		{desc: "F:" + h, src: "func " + h + "(x int) int { return x*2 + 1 }"},
+		{desc: "F:" + h2, src: "func " + h2 + "(x, y int) int {\n\treturn x -\n\t\ty\n}"},
+		{desc: "F:" + f, src: "func " + f + "(a int) (res int) {\n" + body + "}"},
+	}
+	g.use(fmt.Sprintf("%s(%d)", f, g.k(9)))
+	g.use(fmt.Sprintf("%s(%d)", f, 101+g.k(9)))
+	if g.chance(50) {
+		f2 := g.id("lay")
+		forms = append(forms, c39form{desc: "F:" + f2, src: "func " + f2 + "(a int) (int, string) {\n\treturn (\n\t\ta + 1), (\n\t\tfmt.Sprint(\n\t\t\ta))\n}"})
+		g.use("fmt.Sprint(" + f2 + "(4))")
+	}
+	return forms
+}
+
+// macro-time code: `:`-prefixed lines that are statements or expressions.  They are evaluated while the file is read
+// and must leave no trace in the written file (descriptor Z).
+func (g *c39gn) macroTimeStmt() {
+	if !g.macros["#mtime"] {
+		if len(g.macros) == 0 {
+			g.add(c39form{desc: "Z", src: ":import \"go/ast\"", ref: "-"})
+		}
+		g.macros["#mtime"] = true
+		g.add(c39form{desc: "Z", src: ":var mcount, mnames = 0, []string{}", ref: "-"})
+		g.f.tags = append(g.f.tags, "macro-time-statements")
+	}
+	n := 1 + g.k(2)
+	for i := 0; i < n; i++ {
+		src := g.pick(":mcount++", ":mcount += "+fmt.Sprint(1+g.k(5)), ":mnames = append(mnames, \"x"+fmt.Sprint(g.k(9))+"\")",
+			":len(mnames)", ":mcount * 2", ":for i := 0; i < 2; i++ {\n\tmcount += i\n}", ":if mcount > 0 {\n\tmcount--\n}",
+			":mnames[0], mcount = \"y\", len(mnames[0])")
+		if strings.HasPrefix(src, ":mnames[0]") {
+			g.add(c39form{desc: "Z", src: ":mnames = append(mnames, \"first\")", ref: "-"})
+		}
+		g.add(c39form{desc: "Z", src: src, ref: "-"})
+	}
+}
+
 // interface with an embedded interface: gomacro's parser fork panics on it (finding embedded-interface-parse-panic)
 func (g *c39gn) declIfaceEmbedded() []c39form {
 	J, K, A := g.id("J"), g.id("K"), g.id("A")
-	g.f.defect = "embedded-interface-parse-panic"
+	if !c39parserTakesEmbedded() {
+		g.f.defect = "embedded-interface-parse-panic" // only while the code under test still has the defect
+	}
 	g.f.tags = append(g.f.tags, "embedded-interface")
 	g.use(fmt.Sprintf("func() int { var k %s = %s(4); return k.Get() + len(k.Error()) }()", K, A))
 	kdesc := "T:" + K
@@ -543,6 +627,7 @@ var c39macroDefs = map[string]string{
 	"rep3":    ":macro rep3(s ast.Node) ast.Node {\n\treturn ~\"{\n\t\t~,s\n\t\t~,s\n\t\t~,s\n\t}\n}",
 	"square":  ":macro square(r, x ast.Node) ast.Node {\n\treturn ~\"{~,r = ~,x * ~,x}\n}",
 	"scoped":  ":macro scoped(x ast.Node) ast.Node {\n\treturn ~\"{if true {\n\t\ttmp := ~,x\n\t\ttmp++\n\t\tacc += tmp\n\t}}\n}",
+	"retif":   ":macro retif(cond, val ast.Node) ast.Node {\n\treturn ~\"{if ~,cond {\n\t\treturn ~,val\n\t}}\n}",
 	"forn":    ":macro forn(n, body ast.Node) ast.Node {\n\treturn ~\"{for i := 0; i < ~,n; i++ {\n\t\t~,body\n\t}}\n}",
 }
 
@@ -580,6 +665,24 @@ func c39macroDeclTok(whole, naked string) string {
 		return naked
 	}
 	return whole
+}
+
+var c39parensProbe = -1
+
+func c39dropsNeededParens() bool {
+	if c39parensProbe < 0 {
+		c39parensProbe = 1
+		f := &c39file{name: "probe2", pkg: "probe", valid: true}
+		f.chunks = [][]c39form{{{src: "package probe"}}, {{src: "type c39A struct{ W int }"}},
+			{{src: "func c39f(a c39A) int {\n\tif a == (c39A{1}) {\n\t\treturn 1\n\t}\n\treturn 0\n}"}}}
+		dir := workDir("C39probe")
+		if _, err := c39preprocess(dir, []*c39file{f}, dir+"/probe2.gomacro", []string{"-m", "-w", "-f"}); err == nil {
+			if out, err := os.ReadFile(dir + "/probe2.go"); err == nil && strings.Contains(string(out), "(c39A{1})") {
+				c39parensProbe = 0
+			}
+		}
+	}
+	return c39parensProbe == 1
 }
 
 var c39embeddedProbe = -1
@@ -642,7 +745,9 @@ func (g *c39gn) macroDecl() {
 			// ValueSpec as `var` (finding macro-const-written-as-var): the array length below needs a constant
 			c := g.id("MC")
 			g.defMacro("mk"+c, ":macro mk"+c+"(val ast.Node) ast.Node {\n\treturn ~\"{const "+c+" = ~,val}\n}")
-			g.f.defect = "macro-const-written-as-var"
+			if c39macroDeclTok("C", "SV") == "SV" {
+				g.f.defect = "macro-const-written-as-var" // only while the expander under test splices the declaration
+			}
 			g.f.tags = append(g.f.tags, "macro-const")
 			g.use("len([" + c + "]int{})")
 			g.add(c39form{desc: "X{ " + c39macroDeclTok("C", "SV") + ":" + c + " }", src: "mk" + c + "; 3", ref: "const " + c + " = 3"})
@@ -672,7 +777,7 @@ func (g *c39gn) macroFunc() {
 	ref.WriteString("func " + name + "(a int) int {\n\tacc, b := a*2, 5\n")
 	n := 2 + g.k(4)
 	for i := 0; i < n; i++ {
-		switch g.k(6) {
+		switch g.k(7) {
 		case 0:
 			g.needMacro("unless")
 			c := g.cond([]string{"a", "acc", "b"})
@@ -697,6 +802,12 @@ func (g *c39gn) macroFunc() {
 			e := g.iexpr([]string{"a", "b"}, 1)
 			src.WriteString("\tscoped; " + e + "\n")
 			ref.WriteString("\tif true {\n\t\ttmp := " + e + "\n\t\ttmp++\n\t\tacc += tmp\n\t}\n")
+		case 5:
+			g.needMacro("retif")
+			c := g.cond([]string{"a", "acc", "b"})
+			e := g.iexpr([]string{"a", "b", "acc"}, 1)
+			src.WriteString("\tretif; " + c + " && acc > 1000; " + e + "\n")
+			ref.WriteString("\tif " + c + " && acc > 1000 {\n\t\treturn (" + e + ")\n\t}\n")
 		default:
 			g.needMacro("forn")
 			k := fmt.Sprint(1 + g.k(3))
@@ -824,7 +935,9 @@ func c39makeFile(r *rand.Rand, name, pkg, mode string, part int) *c39file {
 	}
 	n := 3 + g.k(8)
 	for i := 0; i < n; i++ {
-		switch g.k(12) {
+		switch g.k(14) {
+		case 12, 13:
+			units = append(units, g.declLayout())
 		case 0, 1, 2:
 			units = append(units, []c39form{g.declFunc()})
 		case 3:
@@ -870,9 +983,15 @@ func c39makeFile(r *rand.Rand, name, pkg, mode string, part int) *c39file {
 				g.macroFunc()
 			}
 		}
+		if mode == "mac" && g.chance(35) {
+			g.macroTimeStmt()
+		}
 		if mode == "ext" && g.chance(50) {
 			g.extForms()
 		}
+	}
+	if mode == "mac" && !g.macros["#mtime"] && g.chance(50) {
+		g.macroTimeStmt()
 	}
 	if mode == "mac" && len(g.macros) == 0 {
 		g.macroDecl()
